@@ -28,6 +28,7 @@ import (
 	"sort"
 	"strings"
 	"sync"
+	"sync/atomic"
 	"time"
 
 	"github.com/google/mtail/internal/logline"
@@ -37,7 +38,17 @@ import (
 
 // Deadline is how long a barrier may take before the step counts as stalled.
 // No verdict depends on it on the good path: every wait ends by an event.
-var Deadline = 20 * time.Second
+var Deadline = 10 * time.Second
+
+// A stalled barrier costs two deadlines per case (first run + re-run).  A defect that makes many cases stall
+// would take hours; once StallBudget cases have stalled twice, the remaining cases of this process are
+// skipped and reported as skipped (the checker then needs the confirmed stalls for a verdict, or gives none).
+const StallBudget = 3
+
+var stalls atomic.Int32
+
+func NoteStall()        { stalls.Add(1) }
+func BudgetSpent() bool { return stalls.Load() >= StallBudget }
 
 // ---------------------------------------------------------------------------
 
@@ -206,6 +217,10 @@ type Run struct {
 	Ev      *Events
 	NPat    int
 
+	// Hold, when set before Start, makes the tailer's output channel unbuffered and keeps the
+	// consumer from receiving until Release is called (a slow consumer: back-pressure).
+	Hold chan struct{}
+
 	cancel context.CancelFunc
 	wg     sync.WaitGroup
 	lines  chan *logline.LogLine
@@ -237,7 +252,14 @@ func (r *Run) Start(patterns []string, ignore string) error {
 	ctx, cancel := context.WithCancel(context.Background())
 	r.cancel = cancel
 	r.lines = make(chan *logline.LogLine, 16)
+	hold := r.Hold
+	if hold != nil {
+		r.lines = make(chan *logline.LogLine)
+	}
 	go func() {
+		if hold != nil {
+			<-hold
+		}
 		for l := range r.lines {
 			r.gotMu.Lock()
 			r.got = append(r.got, Line{File: l.Filename, Text: l.Line})
@@ -264,6 +286,14 @@ func (r *Run) Start(patterns []string, ignore string) error {
 		return fmt.Errorf("stall: %d of %d pattern pollers parked after New", p, r.NPat)
 	}
 	return nil
+}
+
+// Release lets a held consumer run.
+func (r *Run) Release() {
+	if r.Hold != nil {
+		close(r.Hold)
+		r.Hold = nil
+	}
 }
 
 func (r *Run) pokeGot() {
@@ -294,6 +324,15 @@ func (r *Run) Removed(n int) error {
 	if !r.Ev.wait(func() bool { _, _, rm := r.Ev.Counts(); return rm >= n }) {
 		_, _, rm := r.Ev.Counts()
 		return fmt.Errorf("stall: %d streams ended (tail.remove), the model has %d", rm, n)
+	}
+	return nil
+}
+
+// WaitLines waits until the readers have produced n lines in total (lr.line / lr.finish events).
+func (r *Run) WaitLines(n int) error {
+	if !r.Ev.wait(func() bool { l, _, _ := r.Ev.Counts(); return l >= n }) {
+		l, _, _ := r.Ev.Counts()
+		return fmt.Errorf("stall: readers produced %d lines, expected %d", l, n)
 	}
 	return nil
 }
@@ -336,6 +375,7 @@ func (r *Run) Stop() error {
 	if r.cancel == nil {
 		return nil
 	}
+	r.Release()
 	r.cancel()
 	r.cancel = nil
 	done := make(chan struct{})
@@ -360,6 +400,39 @@ func (r *Run) Stop() error {
 			return fmt.Errorf("stall: output channel not closed after the tailer finished")
 		}
 	}
+}
+
+// WaitParkedOrRemoved waits until `parked` stream goroutines are parked in the current epoch or `removed`
+// streams have ended in total - whichever the tree under test does.
+func (r *Run) WaitParkedOrRemoved(parked, removed int) error {
+	t := time.NewTimer(Deadline)
+	defer t.Stop()
+	for {
+		_, _, rm := r.Ev.Counts()
+		if r.Streams.Parked() >= parked || rm >= removed {
+			return nil
+		}
+		select {
+		case <-r.Streams.sig:
+		case <-r.Ev.sig:
+		case <-t.C:
+			return fmt.Errorf("stall: %d stream goroutines parked and %d streams ended", r.Streams.Parked(), rm)
+		}
+	}
+}
+
+// Abandon cancels the tailer without waiting for its goroutines (for schedules after which they are known
+// not to finish) and forgets the run; only for processes that exit right afterwards.
+func (r *Run) Abandon() {
+	if r.cancel != nil {
+		r.Release()
+		r.cancel()
+		r.cancel = nil
+	}
+	routeMu.Lock()
+	delete(routes, r.Root)
+	routeMu.Unlock()
+	os.RemoveAll(r.Root)
 }
 
 // Close stops (if needed) and removes the directory, the routing entry and the expvar keys.
